@@ -1331,9 +1331,10 @@ def compile_match_expression(compiler, expr, root, subject, clauses):
             )
         )
 
+    expr_name = asty.Name(expr, id=return_var.id, ctx=ast.Load())
     returnable = Result(
-        expr=asty.Name(expr, id=return_var.id, ctx=ast.Load()),
-        temp_variables=[return_var],
+        expr=expr_name,
+        temp_variables=[expr_name, return_var],
     )
     ret = Result() + subject
     ret += asty.Assign(
@@ -1562,9 +1563,10 @@ def compile_try_expression(compiler, expr, root, body, catchers, orelse, finalbo
         finalbody += finalbody.expr_as_stmt()
         finalbody = finalbody.stmts
 
+    expr_name = asty.Name(expr, id=return_var.id, ctx=ast.Load())
     returnable = Result(
-        expr=asty.Name(expr, id=return_var.id, ctx=ast.Load()),
-        temp_variables=[return_var],
+        expr=expr_name,
+        temp_variables=[expr_name, return_var],
     )
     body += (
         body.expr_as_stmt()
